@@ -175,6 +175,8 @@ type siteEntry struct {
 	Var, Fn string
 	Write   bool
 	Conc    bool
+	Exempt  bool
+	Locks   []string
 }
 
 func reachOf(f *Fn) string {
@@ -208,8 +210,11 @@ func collect(a *Analysis, repo string) *result {
 	for _, f := range a.fns {
 		for _, acc := range f.Accesses {
 			site := fmt.Sprintf("%s:%d", relFile(repo, acc.File), acc.Line)
-			counted := f.Conc && !acc.Fresh && !f.Ctor
-			res.Sites[site] = append(res.Sites[site], siteEntry{Var: acc.Var, Fn: f.Name, Write: acc.Write, Conc: counted})
+			counted := f.Conc && !acc.Fresh && !f.Ctor && !acc.Exempt
+			res.Sites[site] = append(res.Sites[site], siteEntry{Var: acc.Var, Fn: f.Name, Write: acc.Write, Conc: counted, Exempt: acc.Exempt, Locks: acc.Locks})
+			if acc.Exempt {
+				continue
+			}
 			res.Stats["access_sites"]++
 			k := key{acc.Var, f.Name, acc.Write, strings.Join(acc.Locks, ",")}
 			tgt, m := &res.Facts, idx
@@ -402,11 +407,14 @@ func pcConfig() Config {
 	}
 	ctor := regexp.MustCompile(`^New[A-Z]\w*$`)
 	return Config{
-		Tracked:      set("ProjectRunner", "Process", "ProcessLogBuffer", "PCLog", "ProcessState", "Project", "ProjectState"),
+		Tracked:      set("ProjectRunner", "Process", "ProcessLogBuffer", "PCLog", "ProcessState", "Project", "ProjectState", "ProcessConfig"),
 		Singleton:    set("ProjectRunner"),
 		APIStructs:   set("ProjectRunner", "ProcessLogBuffer", "PCLog"),
 		Constructors: func(n string) bool { return ctor.MatchString(n) },
 		CtorResults:  set("ProcOpts"),
+		// ProcessConfig values are private copies made per instance before its goroutine starts; the one
+		// field that is written after a Process was built is ReplicaName (setName, scale renaming)
+		OnlyFields: map[string]map[string]bool{"ProcessConfig": set("ReplicaName")},
 	}
 }
 
@@ -427,7 +435,6 @@ func analyseRepo(repo string) *result {
 	}
 	a.Walk()
 	a.Propagate()
-	a.dump()
 	return collect(a, repo)
 }
 
